@@ -183,3 +183,32 @@ Proof.
   - exact (isort_map snd (abs_out T enc_out) out_less ml wl Hm).
 Qed.
 Print Assumptions isort_instance.
+
+(* (phase 5, H3) the sort sites of Gen/Kernels3.v, with the static type of the slice sorted at each: the theorems
+   above (and those of Kernels3_CoinSet / Kernels3_CoinSetMinPrio) instantiate the per-type Section variables
+   sort_Sort_<T> / sort_IsSorted_<T> with sorts for the MODEL's order of exactly these types, whose generated
+   Less / Len / Swap are tied to that order in Kernels2_Misc (sortable*Slice_Less_tie) and Kernels4_CoinSetSort
+   (by*_Less_tie, *_sorted_iff).  The translator refuses a sort through any type whose three methods are not
+   translated; changing the type at a site changes this list. *)
+Theorem sort_sites_tie :
+  Kernels3.sort_sites =
+  [ (* MinNumberCoinSelector_CoinSelect:Sort_Reverse:coinset.byAmount *)
+    [77; 105; 110; 78; 117; 109; 98; 101; 114; 67; 111; 105; 110; 83; 101; 108; 101; 99; 116; 111; 114; 95; 67; 111; 105; 110; 83; 101; 108; 101; 99; 116; 58; 83; 111; 114; 116; 95; 82; 101; 118; 101; 114; 115; 101; 58; 99; 111; 105; 110; 115; 101; 116; 46; 98; 121; 65; 109; 111; 117; 110; 116];
+    (* MaxValueAgeCoinSelector_CoinSelect:Sort_Reverse:coinset.byValueAge *)
+    [77; 97; 120; 86; 97; 108; 117; 101; 65; 103; 101; 67; 111; 105; 110; 83; 101; 108; 101; 99; 116; 111; 114; 95; 67; 111; 105; 110; 83; 101; 108; 101; 99; 116; 58; 83; 111; 114; 116; 95; 82; 101; 118; 101; 114; 115; 101; 58; 99; 111; 105; 110; 115; 101; 116; 46; 98; 121; 86; 97; 108; 117; 101; 65; 103; 101];
+    (* MinPriorityCoinSelector_CoinSelect:Sort:coinset.byValueAge *)
+    [77; 105; 110; 80; 114; 105; 111; 114; 105; 116; 121; 67; 111; 105; 110; 83; 101; 108; 101; 99; 116; 111; 114; 95; 67; 111; 105; 110; 83; 101; 108; 101; 99; 116; 58; 83; 111; 114; 116; 58; 99; 111; 105; 110; 115; 101; 116; 46; 98; 121; 86; 97; 108; 117; 101; 65; 103; 101];
+    (* InPlaceSort:Sort:txsort.sortableInputSlice *)
+    [73; 110; 80; 108; 97; 99; 101; 83; 111; 114; 116; 58; 83; 111; 114; 116; 58; 116; 120; 115; 111; 114; 116; 46; 115; 111; 114; 116; 97; 98; 108; 101; 73; 110; 112; 117; 116; 83; 108; 105; 99; 101];
+    (* InPlaceSort:Sort:txsort.sortableOutputSlice *)
+    [73; 110; 80; 108; 97; 99; 101; 83; 111; 114; 116; 58; 83; 111; 114; 116; 58; 116; 120; 115; 111; 114; 116; 46; 115; 111; 114; 116; 97; 98; 108; 101; 79; 117; 116; 112; 117; 116; 83; 108; 105; 99; 101];
+    (* txsort_Sort:Sort:txsort.sortableInputSlice *)
+    [116; 120; 115; 111; 114; 116; 95; 83; 111; 114; 116; 58; 83; 111; 114; 116; 58; 116; 120; 115; 111; 114; 116; 46; 115; 111; 114; 116; 97; 98; 108; 101; 73; 110; 112; 117; 116; 83; 108; 105; 99; 101];
+    (* txsort_Sort:Sort:txsort.sortableOutputSlice *)
+    [116; 120; 115; 111; 114; 116; 95; 83; 111; 114; 116; 58; 83; 111; 114; 116; 58; 116; 120; 115; 111; 114; 116; 46; 115; 111; 114; 116; 97; 98; 108; 101; 79; 117; 116; 112; 117; 116; 83; 108; 105; 99; 101];
+    (* txsort_IsSorted:IsSorted:txsort.sortableInputSlice *)
+    [116; 120; 115; 111; 114; 116; 95; 73; 115; 83; 111; 114; 116; 101; 100; 58; 73; 115; 83; 111; 114; 116; 101; 100; 58; 116; 120; 115; 111; 114; 116; 46; 115; 111; 114; 116; 97; 98; 108; 101; 73; 110; 112; 117; 116; 83; 108; 105; 99; 101];
+    (* txsort_IsSorted:IsSorted:txsort.sortableOutputSlice *)
+    [116; 120; 115; 111; 114; 116; 95; 73; 115; 83; 111; 114; 116; 101; 100; 58; 73; 115; 83; 111; 114; 116; 101; 100; 58; 116; 120; 115; 111; 114; 116; 46; 115; 111; 114; 116; 97; 98; 108; 101; 79; 117; 116; 112; 117; 116; 83; 108; 105; 99; 101] ].
+Proof. reflexivity. Qed.
+Print Assumptions sort_sites_tie.
